@@ -54,7 +54,7 @@ _RT_COMMON = dict(
     engine="roundtrip",
     gen=["GenDataTypeConv", "GenInventory"],
     check_targets=["Check/CheckRoundtrip.vo"],
-    per_shard=500,
+    per_shard=100,
     technique="Coq proof over conversion tables generated from src/ir/types.rs + hand-written parse model + in-Coq differential "
               "correspondence on decoded forms of generated valid modules (wasmprinter / wasmparser / Validator as oracles)",
     trusted_base=PARSE_TB + ["translator/src/datatype.rs (From<ValType> for DataType, From<&DataType> for wasm_encoder::ValType / wasmparser::ValType, storage types); "
@@ -80,7 +80,7 @@ PROPS["C02"] = dict(
     proof_targets=["Props/C02.vo"],
     theorems=[("C02", "C02_valtype_faithful"), ("C02", "C02_valtype_class_exact"), ("C02", "C02_storage_faithful"), ("C02", "C02_valtype_refuted"),
               ("C02", "C02_valtype_wp_faithful"), ("C02", "C02_checker_sound"), ("C02", "C02_failures_are_known"), ("C02", "C02_conv_table_validated")],
-    quick=dict(n=3000), thorough=dict(n=60000),
+    quick=dict(n=1500), thorough=dict(n=40000),
     level_text="Coq proof over the conversion tables regenerated from src/ir/types.rs that ValType -> DataType -> wasm_encoder::ValType (and storage types) is "
                "the identity on every reader-producible type exactly outside the known class D10, with exnref / nullexnref / contref / shared witnesses; Coq "
                "proof that on an agreeing sampled case the decoded content of input and output is equal whenever the parse model predicts Ok and no converted "
@@ -100,7 +100,7 @@ PROPS["C01"] = dict(
     _RT_COMMON,
     proof_targets=["Props/C01.vo"],
     theorems=[("C01", "C01_checker_sound"), ("C01", "C01_valid_roundtrip"), ("C01", "C01_parse_failures_known"), ("C01", "C01_valtype_faithful")],
-    quick=dict(n=3000), thorough=dict(n=60000),
+    quick=dict(n=1500), thorough=dict(n=40000),
     level_text="Validity after the round trip is reduced to C02's content equality: Coq proof that on an agreeing sampled case with a valid input, parse "
                "model Ok and equal decoded content the output was observed valid, hence (with C02) every agreeing case outside D09 / D10 satisfies C01; Coq "
                "proof (C03) that the parse model panics only at known sites; value-type conversion theorem over generated tables. The oracle is "
